@@ -1,10 +1,10 @@
 SPECIFICATION Spec
 CONSTANTS
-  Transport = "quic"
+  Transport = "tls"
   ResidueAfterFailure = FALSE
   ShortCookieRead = FALSE
   DialResetsData = TRUE
-  Alpns <- AlpnsQuic
+  Alpns <- AlpnsTls
   Alphabet <- AlphaCore
   CutRecs <- CutCore
   MaxRecs = 4
@@ -13,5 +13,5 @@ CONSTANTS
   MaxStore = 1
   CtxMode = "returns"
   MaxStalls = 1
-INVARIANTS TypeOK SuccessOnlyIf KeysAgree PoolIsIssued PoolReturned Destination NoResidue
+INVARIANTS TypeOK SuccessOnlyIf KeysAgree PoolIsIssued PoolReturned Destination NoResidue NoResidueState
 PROPERTIES IgnoresNonCritical
